@@ -235,7 +235,8 @@ def S.init (hasStdin hasTimer warn pty echo : Bool) (outP errP : List Chunk) (in
     (holdOpen startFails : Bool := false) (readSize : Nat := 1000) : S :=
   { hasStdin := hasStdin && !startFails, hasTimer := hasTimer, warn := warn, pty := pty, echo := echo,
     outPc := if startFails then .done else .read, errPc := if startFails then .done else .read,
-    out := { pending := outP }, err := { pending := errP }, inScript := ins,
+    out := { pending := outP, isOpen := !startFails }, err := { pending := errP, isOpen := !startFails },
+    inScript := ins,
     holdOpen := holdOpen, startFails := startFails, readSize := readSize,
     tmPc := if hasTimer && !startFails then .armed else .none,
     mainPc := if startFails then .done else .poll,
